@@ -125,7 +125,62 @@ def depth0(part):
             part.violation("depth0/grid-differs-from-level8-tile-centres/coordsys=%s" % csn, "%r: max offset %.3g rad" % (cfg, dmax), cfg)
 
 
+def _coord_sampler(lon, lat):
+    # the stored tile holds the coordinates the sampler was handed (module level: sent to worker processes)
+    return lon.astype(np.float64) + 10.0 * lat.astype(np.float64)
+
+
+def layer_case(depth, planetary, fmt, parallel, part):
+    """'Sampling a layer directly': through sample_layer (serial, and with real worker processes) the
+    coordinates handed to the sampler -- recovered from the stored tiles, whose data ARE lon + 10 lat --
+    are the centres of the tiles eight levels deeper, row for row in display orientation."""
+    from toasty import toast
+    from toasty.pyramid import PyramidIO, Pos
+    from vt.fixtures import scratch, quiet
+
+    csn = "planetary" if planetary else "astronomical"
+    part.case(nontrivial=True)
+    with scratch("c05l") as d:
+        pio = PyramidIO(d, default_format=fmt)
+        try:
+            with quiet():
+                toast.sample_layer(pio, _coord_sampler, depth, coordsys=cs_of(planetary), parallel=parallel)
+        except Exception as e:
+            cfg = {"pos": (depth, 0, 0), "coordsys": csn, "layer": True, "format": fmt, "parallel": parallel}
+            part.violation("layer/raises:%s/%s" % (type(e).__name__, "parallel" if parallel > 1 else "serial"), "%r: %r" % (cfg, e), cfg)
+            return
+        n = 2**depth
+        for y in range(n):
+            for x in range(n):
+                cfg = {"pos": (depth, x, y), "coordsys": csn, "layer": True, "format": fmt, "parallel": parallel}
+                img = pio.read_image(Pos(depth, x, y))
+                if img is None:
+                    part.violation("layer/tile-missing/%s" % ("parallel" if parallel > 1 else "serial"), "%r: no tile stored" % (cfg,), cfg)
+                    return
+                a = np.asarray(img.asarray(), dtype=np.float64)
+                if fmt == "fits":
+                    a = a[::-1]
+                lon, lat = tg.lonlat(tg.pixel_grid(depth, x, y, planetary))
+                # longitudes are compared modulo 2 pi through the combined value's residual
+                want = lon + 10.0 * lat
+                diff = np.abs(a - want)
+                diff = np.minimum(diff, np.abs(diff - 2 * np.pi))
+                # rows containing a pole pixel have an arbitrary longitude
+                ok = (diff < 1e-9) | (np.abs(np.abs(lat) - np.pi / 2) < 1e-9)
+                part.count("pixels_compared", 65536)
+                if not ok.all():
+                    alt = np.abs(a[::-1] - want)
+                    alt = np.minimum(alt, np.abs(alt - 2 * np.pi))
+                    clause = "rows-reversed" if ((alt < 1e-9) | (np.abs(np.abs(lat) - np.pi / 2) < 1e-9)).all() else "off-centre"
+                    part.violation("layer/%s/%s/%s" % (clause, fmt, "parallel" if parallel > 1 else "serial"), "%r: the coordinates the sampler received differ from the deeper tiles' centres at %d pixels (max %.3g rad)" % (cfg, int((~ok).sum()), float(diff[~ok].max())), cfg)
+                    return
+
+
 def _c05job(j):
+    if j[0] == "layer":
+        p = Part()
+        layer_case(j[1], j[2], j[3], j[4], p)
+        return p
     if j[0] == "depth0":
         p = Part()
         depth0(p)
@@ -156,13 +211,23 @@ def run(tier, seed):
     for i in range(k):
         jobs.append((both[i::k], bool(i % 2), False))
     jobs.append(("depth0",))
+    for depth in (1, 2) if tier == "quick" else (0, 1, 2, 3):
+        for planetary in (False, True):
+            for fmt in ("npy", "fits"):
+                for parallel in (1, 2):
+                    if depth == 0 and parallel > 1:
+                        continue
+                    jobs.append(("layer", depth, planetary, fmt, parallel))
     par.pmap(_c05job, jobs, rep)
     return rep.finish()
 
 
 def replay(payload):
     r = payload["replay"]
-    if tuple(r["pos"]) == (0, 0, 0):
+    if r.get("layer"):
+        p = Part()
+        layer_case(r["pos"][0], r["coordsys"] == "planetary", r["format"], r["parallel"], p)
+    elif tuple(r["pos"]) == (0, 0, 0):
         p = Part()
         depth0(p)
     else:
